@@ -4,19 +4,14 @@ From WakeC Require Import WakeModel WakeInv WakeInvWriteLT WakeInvWriteET WakeIn
   WakeInvHandle WakeInvDeliver.
 Import ListNotations.
 
-(* every action of the model except one: a dial whose connect(2) completed at once, in ONESHOT mode (WakeOld.v) *)
-Definition covered (md : mode) (a : action) : Prop :=
-  match md, a with ETOS, RegisterDialNow => False | _, _ => True end.
-
-Lemma step_inv md a s : covered md a -> Inv md s -> Inv md (step md s a).
+Lemma step_inv md a s : Inv md s -> Inv md (step md s a).
 Proof.
-  intros Hcov.
-  destruct a; destruct md; try (exfalso; exact Hcov);
+  destruct a; destruct md;
     first [ apply inv_AppWrite_LT | apply inv_AppWrite_ET | apply inv_AppWrite_ETOS
           | apply inv_AppSendfile_LT | apply inv_AppSendfile_ET | apply inv_AppSendfile_ETOS
           | apply inv_Register_LT | apply inv_Register_ET | apply inv_Register_ETOS
           | apply inv_RegisterDial_LT | apply inv_RegisterDial_ET | apply inv_RegisterDial_ETOS
-          | apply inv_RegisterDialNow_LT | apply inv_RegisterDialNow_ET
+          | apply inv_RegisterDialNow_LT | apply inv_RegisterDialNow_ET | apply inv_RegisterDialNow_ETOS
           | apply inv_PeerRead_LT | apply inv_PeerRead_ET | apply inv_PeerRead_ETOS
           | apply inv_Deliver_LT | apply inv_Deliver_ET | apply inv_Deliver_ETOS
           | apply inv_HandleOut_LT | apply inv_HandleOut_ET | apply inv_HandleOut_ETOS
@@ -30,13 +25,13 @@ Proof.
   right. unfold init; simp_proj. repeat split; intros; try discriminate; try lia; try congruence; destruct md; auto; try discriminate.
 Qed.
 
-Lemma fold_inv md l : Forall (covered md) l -> forall s, Inv md s -> Inv md (fold_left (step md) l s).
+Lemma fold_inv md l : forall s, Inv md s -> Inv md (fold_left (step md) l s).
 Proof.
-  induction 1 as [|a l Ha _ IH]; intros s Hs; cbn; auto. apply IH, step_inv; auto.
+  induction l as [|a l IH]; intros s Hs; cbn; auto. apply IH, step_inv; auto.
 Qed.
 
-Theorem inv_reachable md r0 l : Forall (covered md) l -> Inv md (run md r0 l).
-Proof. intros H. apply fold_inv; auto. apply inv_init. Qed.
+Theorem inv_reachable md r0 l : Inv md (run md r0 l).
+Proof. apply fold_inv. apply inv_init. Qed.
 
 (* the poller holds no event of the fd and no ResetPollerEvent is owed *)
 Definition quiescent (s : st) : Prop := pw s = WNone /\ owed s = 0.
@@ -64,7 +59,7 @@ Qed.
 
 Lemma rearm_qs md s : q (rearm md s) = q s /\ sent (rearm md s) = sent s /\ room (rearm md s) = room s.
 Proof.
-  unfold rearm, kctl, set_owed. destruct (owed s); auto. destruct md;
+  unfold rearm, kctl, set_owed, set_wadded. destruct (owed s); auto. destruct md;
     repeat match goal with |- context[if ?b then _ else _] => destruct b end; simp_proj; auto.
 Qed.
 
